@@ -1606,3 +1606,43 @@ Section Multicol.
     flat_map (fun ix => (if (last ix 1 =? 0)%nat then [MBlank] else []) ++ [MData (coords_of O geom ix) (value ix)]) (all_indices nx).
   Proof. reflexivity. Qed.
 End Multicol.
+
+(* =================================================================================================
+   L. total force with forces delivered one evaluation late
+   ================================================================================================= *)
+Section LaggedForce.
+  Context {T : Type} (O : NumOps T).
+
+  (* after any non-empty history the bookkeeping is that of the last evaluation *)
+  Lemma lf_run_last : forall (h : list (nat * bool * T)) (s : @lfstate T) rel en (f : T),
+    let s' := lf_run s (h ++ [(rel, en, f)]) in
+    lf_prev s' = Some rel /\ lf_prev_calc s' = en /\ lf_engine s' = f.
+  Proof.
+    intros h s rel en f. unfold lf_run. rewrite fold_left_app. cbn [fold_left lf_step].
+    cbn [lf_prev lf_prev_calc lf_engine]. repeat split.
+  Qed.
+
+  (* the ft_ value at an evaluation (rel, enabled) that follows an evaluation (rel', enabled', f'):
+     if rel > 0, rel - 1 <= rel' (previous or same step) and the calculation was on at both, it is f', the force exerted
+     at the previous evaluation; otherwise it is what it was before (0 for a variable that never had one) *)
+  Lemma lagged_force_rule : forall (h : list (nat * bool * T)) (s : @lfstate T) rel' en' (f' : T) rel en (f : T),
+    lf_ft (lf_run s (h ++ [(rel', en', f'); (rel, en, f)])) =
+    if ((0 <? rel) && (rel - 1 <=? rel') && en' && en)%nat%bool then f'
+    else lf_ft (lf_run s (h ++ [(rel', en', f')])).
+  Proof.
+    intros h s rel' en' f' rel en f.
+    replace (h ++ [(rel', en', f'); (rel, en, f)]) with ((h ++ [(rel', en', f')]) ++ [(rel, en, f)]) by (rewrite <- app_assoc; reflexivity).
+    destruct (lf_run_last h s rel' en' f') as [Hp [Hc He]].
+    set (s1 := lf_run s (h ++ [(rel', en', f')])) in *.
+    unfold lf_run at 1. rewrite fold_left_app. fold (lf_run s (h ++ [(rel', en', f')])). fold s1.
+    cbn [fold_left lf_step lf_ft]. unfold lf_available. rewrite Hp, Hc, He.
+    destruct (0 <? rel)%nat, (rel - 1 <=? rel')%nat, en', en; reflexivity.
+  Qed.
+
+  (* first evaluation after the request (the calculation was off at the previous evaluation): nothing is collected *)
+  Lemma lagged_force_first_request : forall (h : list (nat * bool * T)) (s : @lfstate T) rel' (f' : T) rel en (f : T),
+    lf_ft (lf_run s (h ++ [(rel', false, f'); (rel, en, f)])) = lf_ft (lf_run s (h ++ [(rel', false, f')])).
+  Proof.
+    intros. rewrite lagged_force_rule. destruct (0 <? rel)%nat, (rel - 1 <=? rel')%nat; reflexivity.
+  Qed.
+End LaggedForce.
